@@ -261,3 +261,50 @@ func harness_C17_alphabet() {
 	}
 	verifCover("C17.alphabet-end")
 }
+
+// ---- (d) comparison against lookup keys across the whole alphabet ----
+
+// letters that Unicode simple case folding identifies but lower-casing keeps
+// apart (final sigma, long s, Kelvin sign, ...), next to their partners
+var c17FoldTraps = []string{
+	"σ@example.org", "ς@example.org", "Σ@example.org", "Σ@example.org.",
+	"s@example.org", "ſ@example.org", "S@EXAMPLE.ORG",
+	"k@example.org", "K@example.org",
+	"ß@example.org", "ẞ@example.org", "ss@example.org",
+	"θ@example.org", "ϑ@example.org",
+	"u@σ.example", "u@ς.example",
+}
+
+func init() { verifRegister("harness_C17_pairs", harness_C17_pairs) }
+
+// Equal(a, b) must coincide with equality of the lookup keys for every pair of
+// the alphabet (not only inside one class), and be transitive through a third.
+func harness_C17_pairs() {
+	var all []string
+	for _, g := range c17Alphabet {
+		all = append(all, g...)
+	}
+	all = append(all, c17FoldTraps...)
+	a := all[nondetChoice("a", len(all))]
+	b := all[nondetChoice("b", len(all))]
+	ka, errA := ForLookup(a)
+	kb, errB := ForLookup(b)
+	eq := Equal(a, b)
+	if errA == nil && errB == nil {
+		if eq != (ka == kb) {
+			verifFail("C17.equal-iff-same-key-pairs")
+		}
+	} else if eq && a != b {
+		verifFail("C17.equal-despite-invalid")
+	}
+	if eq != Equal(b, a) {
+		verifFail("C17.equal-symmetric-pairs")
+	}
+	if verifParam("third", 1) == 1 {
+		c := c17FoldTraps[nondetChoice("c", len(c17FoldTraps))]
+		if eq && Equal(b, c) && !Equal(a, c) {
+			verifFail("C17.equal-transitive-pairs")
+		}
+	}
+	verifCover("C17.pairs-end")
+}
